@@ -54,23 +54,24 @@ mod bset__ser;
 mod opt_lat__ser;
 mod bool_lat__pari;
 mod lat_multi_improve__topar;
-mod count_paths__gen;
-mod neg_basic__ser;
-mod neg_basic__src0;
-mod neg_basic__perm2;
-mod agg_depth__ser;
-mod agg_lattice__to;
-mod neg_rec_after__exp;
-mod agg_empty__to;
-mod disj__mrt;
-mod disj__srcpar;
-mod disj_nested__par;
-mod pat_args__exppar;
-mod multi_head_disj__pari;
-mod mac_basic__ser;
-mod mac_basic__src0;
-mod mac_basic__exppar;
-mod mac_nested__pari;
+mod count_paths__topar;
+mod count_paths__init;
+mod neg_basic__run;
+mod neg_basic__runpar;
+mod agg_minmaxsum__ser;
+mod agg_lattice__ser;
+mod neg_rec_after__ser;
+mod agg_empty__ser;
+mod disj__to;
+mod disj__redecl;
+mod disj__exp;
+mod pat_args__par;
+mod rep_expr__exppar;
+mod neg_in_disj__pari;
+mod mac_basic__run;
+mod mac_basic__runpar;
+mod mac_capture__exppar;
+mod mac_disj__pari;
 
 fn lookup(name: &str) -> fn() -> Box<dyn Driven> {
    match name {
@@ -120,23 +121,24 @@ fn lookup(name: &str) -> fn() -> Box<dyn Driven> {
       "opt_lat__ser" => opt_lat__ser::make,
       "bool_lat__pari" => bool_lat__pari::make,
       "lat_multi_improve__topar" => lat_multi_improve__topar::make,
-      "count_paths__gen" => count_paths__gen::make,
-      "neg_basic__ser" => neg_basic__ser::make,
-      "neg_basic__src0" => neg_basic__src0::make,
-      "neg_basic__perm2" => neg_basic__perm2::make,
-      "agg_depth__ser" => agg_depth__ser::make,
-      "agg_lattice__to" => agg_lattice__to::make,
-      "neg_rec_after__exp" => neg_rec_after__exp::make,
-      "agg_empty__to" => agg_empty__to::make,
-      "disj__mrt" => disj__mrt::make,
-      "disj__srcpar" => disj__srcpar::make,
-      "disj_nested__par" => disj_nested__par::make,
-      "pat_args__exppar" => pat_args__exppar::make,
-      "multi_head_disj__pari" => multi_head_disj__pari::make,
-      "mac_basic__ser" => mac_basic__ser::make,
-      "mac_basic__src0" => mac_basic__src0::make,
-      "mac_basic__exppar" => mac_basic__exppar::make,
-      "mac_nested__pari" => mac_nested__pari::make,
+      "count_paths__topar" => count_paths__topar::make,
+      "count_paths__init" => count_paths__init::make,
+      "neg_basic__run" => neg_basic__run::make,
+      "neg_basic__runpar" => neg_basic__runpar::make,
+      "agg_minmaxsum__ser" => agg_minmaxsum__ser::make,
+      "agg_lattice__ser" => agg_lattice__ser::make,
+      "neg_rec_after__ser" => neg_rec_after__ser::make,
+      "agg_empty__ser" => agg_empty__ser::make,
+      "disj__to" => disj__to::make,
+      "disj__redecl" => disj__redecl::make,
+      "disj__exp" => disj__exp::make,
+      "pat_args__par" => pat_args__par::make,
+      "rep_expr__exppar" => rep_expr__exppar::make,
+      "neg_in_disj__pari" => neg_in_disj__pari::make,
+      "mac_basic__run" => mac_basic__run::make,
+      "mac_basic__runpar" => mac_basic__runpar::make,
+      "mac_capture__exppar" => mac_capture__exppar::make,
+      "mac_disj__pari" => mac_disj__pari::make,
       _ => panic!("no such program variant in this shard: {}", name),
    }
 }
